@@ -4,3 +4,5 @@ pub mod algorithms;
 pub mod color;
 #[cfg(feature = "serde")]
 pub mod serde_tools;
+#[cfg(kani)]
+pub mod verif_map;
